@@ -3,7 +3,8 @@
   Model: Rl/FileSession.lean (transliteration of `FileHistory::{load, add, append, save}`,
   `can_just_append`, `update_path` of src/history.rs after the repair of D14: `save` truncates
   the file only once it holds the lock).  Spec (oracle on the implementation):
-  Rl/Spec/FileSession.lean.  Lemmas: Rl/Lemmas/FileSession.lean.
+  Rl/Spec/FileSession.lean.  Lemmas: Rl/Lemmas/FileSession.lean, Rl/Lemmas/FileSession2.lean
+  (the simulation sub-operation ⊑ operation-atomic, the counting invariant, the reference model).
 
   The theorems are about ANY number of sessions (`Sys.sess : Nat → Sess`), any limits and
   settings per session, any interleaving of the calls (lists of `Op`, induction, no bound) and
@@ -15,6 +16,7 @@
 import Rl.FileSession
 import Rl.Spec.FileSession
 import Rl.Lemmas.FileSession
+import Rl.Lemmas.FileSession2
 open Rl Rl.FS
 
 /-! ### the file always loads (operation-atomic model) -/
@@ -201,13 +203,83 @@ theorem C11_subop_missing_file_race :
       [.add 1 "a".toList, .add 2 "b".toList, .append 1 1, .append 2 2]) false) = some ["a", "b"] := by
   decide
 
-/-- Full statement for the repaired code (not proved yet): with the file present, every state the
-    sub-operation system reaches is a state the operation-atomic system reaches — `saveWrite`
-    commits a `save`, `appendLocked` commits an `append`, the other sub-steps change no data. -/
+/-- Full statement for the repaired code: with the file present, every state the sub-operation
+    system reaches is a state the operation-atomic system reaches — `saveWrite` commits a `save`,
+    `appendLocked` commits an `append`, the other sub-steps change no data.
+    Proved below: `C11_subop_refines`. -/
 def C11_subop_refines_statement : Prop :=
   ∀ (ws : Char → Bool) (s : Sys) (subops : List SubOp), Good s → s.file.isSome = true →
     ∃ ops : List Op, ((SubSys.init s false).run ws subops).sys.file = (s.run ws ops).file ∧
       ∀ i, ((SubSys.init s false).run ws subops).sys.sess i = (s.run ws ops).sess i
+
+/-- One sub-step of the repaired code, in any state reachable with the file present (`SubInv`:
+    good data, file present, `truncFirst = false`, every session that is inside a call still has
+    something to write): the invariant is kept, and the data part (file, clock, every session) is
+    unchanged — a stutter: `saveOpen`, `appendCheck`, any step that is not enabled — or is the result
+    of exactly ONE step of the operation-atomic system (`load`, `add`, `touch` as themselves,
+    `saveWrite` as `save`, `appendLocked` as `append`). -/
+theorem C11_subop_step (ws : Char → Bool) (t : SubSys) (op : SubOp) (h : SubInv t) :
+    SubInv (t.step ws op) ∧
+    ((t.step ws op).sys = t.sys ∨ ∃ o : Op, (t.step ws op).sys = (t.sys.step ws o).1) :=
+  subStep_sim ws t op h
+
+/-- Refinement, strong form: the whole data part (file, clock and every session, as one `Sys`)
+    that the sub-operation system of the repaired code reaches from a good state with the file
+    present is reached by the operation-atomic system with the list of the committed operations. -/
+theorem C11_subop_refines_sys (ws : Char → Bool) (s : Sys) (subops : List SubOp) (hg : Good s)
+    (hf : s.file.isSome = true) :
+    ∃ ops : List Op, ((SubSys.init s false).run ws subops).sys = s.run ws ops :=
+  (subRun_sim ws subops _ (subInv_init s hg hf)).2
+
+/-- The statement: for the repaired code, with the file present, the windows the lock does not
+    cover (`File` opened before the lock is taken, `path.exists()` before the lock) are harmless —
+    every reachable state is one of the operation-atomic system, so every theorem above about
+    `Sys.run` (always loads, shapes, no loss, the bound) holds of it. -/
+theorem C11_subop_refines : C11_subop_refines_statement := by
+  intro ws s subops hg hf
+  obtain ⟨ops, h⟩ := C11_subop_refines_sys ws s subops hg hf
+  exact ⟨ops, by rw [h], fun i => by rw [h]⟩
+
+/-- A consequence, as an example of the transfer: at sub-operation granularity too, the file of
+    the repaired code is at every moment — also between `saveOpen` and `saveWrite` of any number of
+    sessions — a file `save_to` wrote, and it loads without error into any history. -/
+theorem C11_subop_always_loads (ws : Char → Bool) (es0 : List Text) (m0 : Nat) (cfg : Nat → Nat × Bool × Bool)
+    (hne : ∀ e ∈ es0, e ≠ []) (subops : List SubOp) :
+    ∃ es m, ((SubSys.init (Sys.init (some { content := atomsOf (fileOf es0), mtime := m0 }) cfg) false).run ws subops).sys.file
+        = some { content := atomsOf (fileOf es), mtime := m } ∧
+      ∀ h : FileHist, (loadFrom ws (atomsOf (fileOf es)) h).status = .ok := by
+  obtain ⟨ops, h⟩ := C11_subop_refines_sys ws _ subops (init_good es0 m0 cfg hne) rfl
+  obtain ⟨es, m, hf, _, hl⟩ := C11_always_loads ws es0 m0 cfg hne ops
+  exact ⟨es, m, by rw [h]; exact hf, fun x => (hl x).1⟩
+
+/-- `truncFirst = false` (the repair of D14) is needed for the refinement: the state the old code
+    reaches after `File::create` in the D14 schedule (an empty file) is not a state of the
+    operation-atomic system, whatever operations it runs. -/
+theorem C11_subop_refines_needs_repair :
+    ¬ ∃ ops : List Op, (((C11_start C11_fileI true).run C11_ws (C11_D14_schedule.take 5)).sys.file.map (·.content))
+        = (((Sys.init C11_fileI C11_cfg).run C11_ws ops).file.map (·.content)) := by
+  rintro ⟨ops, h⟩
+  rw [C11_subop_D14_counterexample.2] at h
+  obtain ⟨es, m, hf, _, _⟩ := C11_always_loads C11_ws ["i".toList] 0 C11_cfg (by decide) ops
+  have hf' : (Sys.init C11_fileI C11_cfg).run C11_ws ops
+      = (Sys.init (some { content := atomsOf (fileOf ["i".toList]), mtime := 0 }) C11_cfg).run C11_ws ops := rfl
+  rw [hf', hf] at h
+  simp [fileOf, atomsOf, header] at h
+
+/-- "The file is present" is needed too (outside the property's quantifier): when it is missing,
+    `save` creates it empty before it takes the lock, and an empty file is not a state of the
+    operation-atomic system either (there the file is missing or has the version header). -/
+theorem C11_subop_refines_needs_file :
+    ¬ ∃ ops : List Op, (((C11_start none false).run C11_ws [.add 1 "a".toList, .saveOpen 1 5]).sys.file)
+        = ((Sys.init none C11_cfg).run C11_ws ops).file := by
+  rintro ⟨ops, h⟩
+  have h0 : ((C11_start none false).run C11_ws [.add 1 "a".toList, .saveOpen 1 5]).sys.file
+      = some { content := [], mtime := 5 } := by decide
+  rw [h0] at h
+  rcases C11_always_loads_from C11_ws _ (init_good_missing C11_cfg) ops with hn | ⟨es, m, hf, _⟩
+  · rw [hn] at h; cases h
+  · rw [hf] at h
+    simp [fileOf, atomsOf, header] at h
 
 /-! ### the size limit when modification times are distinguishable -/
 
@@ -334,10 +406,11 @@ theorem C11_no_loss (ws : Char → Bool) (ops : List Op) (s : Sys) (F : List Tex
     · exact List.prefix_append _ _
     · exact List.prefix_refl _
 
-/-- Full statement wanted by DESIGN.md (not proved yet): the counting form of the hypothesis —
-    fresh sessions with a common ignore-space setting, a trace of load / add / append, pairwise
-    distinct lines, and `|initial entries| + number of adds ≤ max_len` of every session — implies
-    `C11_fitsRun`.  (`C11_no_loss` is proved with the per-append form of "limit not exceeded".) -/
+/-- Full statement wanted by DESIGN.md: the counting form of the hypothesis — fresh sessions with
+    a common ignore-space setting, a trace of load / add / append, pairwise distinct lines, and
+    `|initial entries| + number of adds ≤ max_len` of every session — implies `C11_fitsRun`.
+    (`C11_no_loss` is proved with the per-append form of "limit not exceeded".)
+    Proved below: `C11_no_loss_counting`. -/
 def C11_no_loss_counting_statement : Prop :=
   ∀ (ws : Char → Bool) (es0 : List Text) (m0 : Nat) (cfg : Nat → Nat × Bool × Bool) (isp : Bool) (ops : List Op),
     (∀ i, (cfg i).2.1 = isp) →
@@ -346,3 +419,158 @@ def C11_no_loss_counting_statement : Prop :=
     (es0 ++ ops.filterMap (fun op => match op with | .add _ l => some l | _ => none)).Nodup →
     (∀ i, es0.length + (ops.filter (fun op => match op with | .add _ _ => true | _ => false)).length ≤ (cfg i).1) →
     C11_fitsRun ws (Sys.init (some { content := atomsOf (fileOf es0), mtime := m0 }) cfg) es0 ops
+
+/-- The counting invariant gives the per-append form, from any state.  `U` is every line there is
+    (initial entries and every line ever entered, pairwise distinct), every store has room for all
+    of `U` and the sessions agree on ignore-space (`CfgOk`); `CInv` (Rl/Lemmas/FileSession2.lean):
+    the file entries `F` followed by the unwritten lines of any one session have no repetition,
+    are lines of `U` that are not entered again and that a store accepts, and the unwritten lines
+    of two sessions are disjoint.  Every step without `save` keeps it (`add` moves the entered
+    line from the future to the session's unwritten lines — or drops it when the store refuses it;
+    `load` forgets the session's unwritten lines; `append` moves them to the end of the file), and
+    under it `F ++ unwritten i` is `Storable` by the pigeonhole principle. -/
+theorem C11_fitsRun_of_counting (ws : Char → Bool) (isp : Bool) (U : List Text) (ops : List Op) (s : Sys)
+    (F : List Text) (hg : Good s) (hf : FileIs s F) (hc : CfgOk isp U s)
+    (hinv : CInv ws isp U (pend s) F (addsOf ops))
+    (hns : ∀ op ∈ ops, match op with | .save _ _ => False | .touch _ => True | _ => True) :
+    C11_fitsRun ws s F ops ∧
+      CInv ws isp U (pend (s.run ws ops)) (C11_ghostRun ws s F ops) [] ∧ CfgOk isp U (s.run ws ops) := by
+  induction ops generalizing s F with
+  | nil => exact ⟨trivial, hinv, hc⟩
+  | cons op ops ih =>
+    have hns' : ∀ o ∈ ops, match o with | .save _ _ => False | .touch _ => True | _ => True :=
+      fun o ho => hns o (by simp [ho])
+    have hfit : C11_fits ws s F op := by
+      cases op with
+      | append i mt => exact fun _ => cinv_storable ws isp U s F _ i hc hinv
+      | save i mt => exact (hns (.save i mt) (by simp)).elim
+      | load i => trivial
+      | add i l => trivial
+      | touch mt => trivial
+    have hg' := step_good ws s op hg
+    have hf' := C11_no_loss_step ws s F op hg hf hfit
+    have hc' := cfgOk_step ws isp U s op hg hc
+    have hne : NonEmpty F := fun e he => (hinv.mem 0 e (by simp [he])).2.2.1
+    have hinv' : CInv ws isp U (pend (s.step ws op).1) (C11_ghost s F op) (addsOf ops) := by
+      cases op with
+      | load i => exact cinv_load ws isp U s F _ i hne hf hinv
+      | add i l => exact cinv_add ws isp U s F _ i l hg hc hinv
+      | touch mt => exact cinv_touch ws isp U s F _ mt hinv
+      | save i mt => exact (hns (.save i mt) (by simp)).elim
+      | append i mt =>
+        simp only [C11_ghost, Sys.step]
+        cases hn : C11_hasNew s i
+        · have hn' : nothingNew s i = true := by
+            have : (!nothingNew s i) = false := hn
+            simpa using this
+          unfold nothingNew at hn'
+          rw [append_nothing ws s i mt hn']; exact hinv
+        · have hn' : nothingNew s i = false := by
+            have : (!nothingNew s i) = true := hn
+            simpa using this
+          exact cinv_append ws isp U s F _ i mt hg hc hf hinv hn'
+    obtain ⟨h1, h2, h3⟩ := ih _ _ hg' hf' hc' hinv' hns'
+    exact ⟨⟨hfit, h1⟩, h2, h3⟩
+
+/-- **The counting form of "the limit is not exceeded" implies the per-append form.**
+    (`C11_no_loss_counting_statement`, true as written.) -/
+theorem C11_no_loss_counting : C11_no_loss_counting_statement := by
+  intro ws es0 m0 cfg isp ops hisp hok hns hnd hlen
+  have hU : ∀ i, (es0 ++ addsOf ops).length ≤ (cfg i).1 := fun i => by
+    rw [List.length_append, addsOf_length]; exact hlen i
+  exact (C11_fitsRun_of_counting ws isp (es0 ++ addsOf ops) ops _ es0
+    (init_good es0 m0 cfg (fun e he => (hok e he).1)) ⟨m0, rfl⟩
+    (cfgOk_init isp _ _ cfg hisp hU) (cinv_init ws isp es0 (addsOf ops) m0 cfg hok hnd) hns).1
+
+/-! ### the file under the counting hypothesis
+
+  `refRun` (Rl/Lemmas/FileSession2.lean) is the property text as a program: the file is a list of
+  lines, every session has a queue; `add` puts a line the store accepts (`accepts`: not empty, not
+  blank-led under ignore-space) at the end of its session's queue, `append` moves the queue to the
+  end of the file, `load` empties the queue (lines entered before a load are never written: the
+  code sets `new_entries = 0`).  Under the counting hypothesis the real system is this program. -/
+
+/-- **The file, exactly.**  Under the counting hypothesis (as in `C11_no_loss_counting_statement`)
+    the file after the trace holds exactly the reference file — the initial entries followed, for
+    every append in trace order, by the lines its session entered since its previous append (or
+    load), in the order entered — and every session's unwritten lines are its reference queue.
+    Consequently: the initial entries come first; no line is in the file twice, nor both in the
+    file and still unwritten; the file holds only initial entries and entered lines. -/
+theorem C11_counting_file (ws : Char → Bool) (es0 : List Text) (m0 : Nat) (cfg : Nat → Nat × Bool × Bool)
+    (isp : Bool) (ops : List Op)
+    (hisp : ∀ i, (cfg i).2.1 = isp)
+    (hok : ∀ e ∈ es0, e ≠ [] ∧ (isp = true → ∀ c t, e = c :: t → ws c = false))
+    (hns : ∀ op ∈ ops, match op with | .save _ _ => False | .touch _ => True | _ => True)
+    (hnd : (es0 ++ ops.filterMap (fun op => match op with | .add _ l => some l | _ => none)).Nodup)
+    (hlen : ∀ i, es0.length + (ops.filter (fun op => match op with | .add _ _ => true | _ => false)).length ≤ (cfg i).1) :
+    FileIs ((Sys.init (some { content := atomsOf (fileOf es0), mtime := m0 }) cfg).run ws ops)
+        (refRun (accepts ws isp) es0 (fun _ => []) ops).1 ∧
+    (∀ i, newOnes (((Sys.init (some { content := atomsOf (fileOf es0), mtime := m0 }) cfg).run ws ops).sess i).fh
+        = (refRun (accepts ws isp) es0 (fun _ => []) ops).2 i) ∧
+    es0 <+: (refRun (accepts ws isp) es0 (fun _ => []) ops).1 ∧
+    (∀ i, ((refRun (accepts ws isp) es0 (fun _ => []) ops).1 ++ (refRun (accepts ws isp) es0 (fun _ => []) ops).2 i).Nodup) ∧
+    (∀ e ∈ (refRun (accepts ws isp) es0 (fun _ => []) ops).1, e ∈ es0 ∨
+      e ∈ ops.filterMap (fun op => match op with | .add _ l => some l | _ => none)) := by
+  have hU : ∀ i, (es0 ++ addsOf ops).length ≤ (cfg i).1 := fun i => by
+    rw [List.length_append, addsOf_length]; exact hlen i
+  have hns' : ∀ op ∈ ops, notSave op := fun op hop => by
+    have := hns op hop
+    cases op <;> first | exact this | trivial
+  obtain ⟨h1, h2, h3⟩ := count_run ws isp (es0 ++ addsOf ops) ops _ es0
+    (init_good es0 m0 cfg (fun e he => (hok e he).1)) ⟨m0, rfl⟩
+    (cfgOk_init isp _ _ cfg hisp hU) (cinv_init ws isp es0 (addsOf ops) m0 cfg hok hnd)
+    (memInv_init _ cfg _) hns'
+  rw [pend_init] at h1 h2 h3
+  refine ⟨h1, fun i => congrFun h2 i, refRun_prefix _ ops es0 _, fun i => ?_, fun e he => ?_⟩
+  · have := h3.nodup i
+    rw [h2] at this; exact this
+  · have := (h3.mem 0 e (by simp [he])).1
+    exact List.mem_append.mp this
+
+/-- **Every entered line exactly once, in order.**  Under the counting hypothesis, for a session
+    `i` whose loads come before the lines it enters (the trace splits into a part where `i` enters
+    nothing and a part where `i` does not load — the property's programs `load;(add|append)*`):
+    the lines of session `i` that the file holds after the trace, in file order, followed by the
+    lines it has not written yet, are exactly the lines it entered and its store accepts
+    (`entered`: not empty, not blank-led under ignore-space), in the order entered.  So none of
+    them is lost, none is in the file twice, they are in the order entered, and once the session
+    has appended (nothing unwritten) they are all in the file. -/
+theorem C11_counting_session (ws : Char → Bool) (es0 : List Text) (m0 : Nat) (cfg : Nat → Nat × Bool × Bool)
+    (isp : Bool) (pre rest : List Op) (i : Nat)
+    (hisp : ∀ j, (cfg j).2.1 = isp)
+    (hok : ∀ e ∈ es0, e ≠ [] ∧ (isp = true → ∀ c t, e = c :: t → ws c = false))
+    (hns : ∀ op ∈ pre ++ rest, match op with | .save _ _ => False | .touch _ => True | _ => True)
+    (hnd : (es0 ++ (pre ++ rest).filterMap (fun op => match op with | .add _ l => some l | _ => none)).Nodup)
+    (hlen : ∀ j, es0.length + ((pre ++ rest).filter (fun op => match op with | .add _ _ => true | _ => false)).length ≤ (cfg j).1)
+    (hpre : ∀ l, Op.add i l ∉ pre) (hrest : ∀ op ∈ rest, op ≠ .load i) :
+    ∃ G, FileIs ((Sys.init (some { content := atomsOf (fileOf es0), mtime := m0 }) cfg).run ws (pre ++ rest)) G ∧
+      es0 <+: G ∧ G.Nodup ∧
+      G.filter (fun e => decide (e ∈ entered (accepts ws isp) i (pre ++ rest)))
+          ++ newOnes (((Sys.init (some { content := atomsOf (fileOf es0), mtime := m0 }) cfg).run ws (pre ++ rest)).sess i).fh
+        = entered (accepts ws isp) i (pre ++ rest) := by
+  obtain ⟨h1, h2, h3, h4, _⟩ := C11_counting_file ws es0 m0 cfg isp (pre ++ rest) hisp hok hns hnd hlen
+  refine ⟨_, h1, h3, (List.nodup_append.mp (h4 0)).1, ?_⟩
+  rw [h2 i]
+  exact refRun_session_total (accepts ws isp) i es0 pre rest hnd hpre hrest
+
+/-- Non-vacuity / a concrete instance of the two theorems above: two sessions with limit 4 on a
+    file holding `i`; session 1 loads, enters `a`, `b`; session 2 enters `c` (without loading) and
+    appends; session 1 appends.  The file is `i, c, a, b`. -/
+theorem C11_counting_example :
+    C11_entriesOf (SubSys.init ((Sys.init C11_fileI (fun _ => (4, false, false))).run C11_ws
+      [.load 1, .add 1 "a".toList, .add 2 "c".toList, .add 1 "b".toList, .append 2 1, .append 1 2]) false)
+      = some ["i", "c", "a", "b"] ∧
+    (refRun (accepts C11_ws false) ["i".toList] (fun _ => [])
+      [.load 1, .add 1 "a".toList, .add 2 "c".toList, .add 1 "b".toList, .append 2 1, .append 1 2]).1
+      = ["i".toList, "c".toList, "a".toList, "b".toList] := by
+  decide
+
+/-- Why the counting hypothesis asks for a COMMON ignore-space setting: session 1 (ignore-space
+    off) writes the blank-led line ` x`; session 2 (ignore-space on, limit far away) then appends
+    `y` by rewriting the file through its own store, which refuses ` x` — the line is lost although
+    no limit is near. -/
+theorem C11_counting_needs_common_ignore_space :
+    C11_entriesOf (SubSys.init ((Sys.init C11_fileI (fun i => if i = 1 then (4, false, false) else (4, true, false))).run C11_ws
+      [.add 1 " x".toList, .append 1 1, .add 2 "y".toList, .append 2 2]) false)
+      = some ["i", "y"] := by
+  decide
